@@ -77,6 +77,12 @@ pub struct InSim {
     /// ops per submit batch
     pub batch: u32,
     pub crash_before_step: u32,
+    /// the first incarnation submits everything in one batch and *returns* (its software has finished
+    /// by itself) with the operations in flight; the ring handle, the open file and the buffers outlive
+    /// the host's tasks in a slot of the harness (the one-ring-per-thread pattern). After crash + bounce
+    /// the restarted software drains the old handle: nothing may complete or take effect.
+    #[serde(default)]
+    pub leave_early: bool,
 }
 
 pub struct C18;
@@ -167,7 +173,10 @@ impl Property for C18 {
     }
 
     fn generate(rng: &mut Rng, _idx: u64, _tier: Tier) -> Scenario {
-        let nr = rng.usize(1, 2);
+        // 1-4 ring slots; with >= 3 slots (or in one scenario in five) rings are dropped and re-created
+        // often, in any order, while other rings have operations in flight (descriptor reuse)
+        let nr = *rng.pick(&[1usize, 1, 2, 2, 2, 3, 4]);
+        let churn = nr >= 3 || rng.chance(1, 5);
         let nf = rng.usize(1, 3);
         let (lat_min_ns, lat_max_ns) = match rng.below(4) {
             0 => (0, 0),
@@ -183,7 +192,7 @@ impl Property for C18 {
         let mut tag = 0u32;
         for _ in 0..n {
             let ring = rng.below(nr as u64) as usize;
-            match rng.weighted(&[40, 18, 12, 16, 3, 2, 2]) {
+            match rng.weighted(if churn { &[36, 18, 8, 14, 2, 10, 12] } else { &[40, 18, 12, 16, 3, 2, 2] }) {
                 0 => {
                     ud += 1;
                     let file = rng.below(nf as u64) as usize;
@@ -254,9 +263,12 @@ impl Property for C18 {
             let tick_ms = 1 + base.fs_seed % 3;
             for crash in [0u32, 2, 3, 5, 9] {
                 let mut c = base.clone();
-                c.in_sim = Some(InSim { tick_ms, batch: 1 + (base.fs_seed >> 8) as u32 % 4, crash_before_step: crash });
+                c.in_sim = Some(InSim { tick_ms, batch: 1 + (base.fs_seed >> 8) as u32 % 4, crash_before_step: crash, leave_early: false });
                 v.push(c);
             }
+            let mut c = base.clone();
+            c.in_sim = Some(InSim { tick_ms, batch: 8, crash_before_step: 2 + (base.fs_seed >> 12) as u32 % 4, leave_early: true });
+            v.push(c);
         }
         v
     }
@@ -283,7 +295,7 @@ impl Property for C18 {
             out.push(Scenario { page_cache: false, ..sc.clone() });
         }
         if let Some(i) = &sc.in_sim {
-            if i.crash_before_step != 0 {
+            if i.crash_before_step != 0 && !i.leave_early {
                 out.push(Scenario { in_sim: Some(InSim { crash_before_step: 0, ..i.clone() }), ..sc.clone() });
             }
             if i.batch > 1 {
@@ -786,6 +798,8 @@ enum SimEv {
     /// a restarted incarnation: completions visible on a fresh ring after waiting, file content
     Restarted { stale_cqes: usize, content: Option<Vec<u8>> },
     Finished { content: Option<Vec<u8>> },
+    /// the software returned with these submissions in flight (InSim::leave_early)
+    LeftEarly,
     Error(String),
 }
 
@@ -826,9 +840,14 @@ fn run_in_sim(sc: &Scenario, log: &mut Log, rep: &mut Report) -> Option<Violatio
         }
     }
     let mut sim = b.build();
+    // (ring, buffers) of a first incarnation that left early; the buffers must outlive the operations
+    #[allow(clippy::type_complexity)]
+    let stash: Rc<RefCell<Option<(turmoil::io_uring::IoUring, Vec<Vec<u8>>)>>> = Rc::new(RefCell::new(None));
     {
         let events = events.clone();
         let inc = inc.clone();
+        let stash = stash.clone();
+        let leave_early = ins.leave_early;
         let pushes = pushes.clone();
         let init = init.clone();
         let batch = ins.batch.max(1) as usize;
@@ -838,18 +857,31 @@ fn run_in_sim(sc: &Scenario, log: &mut Log, rep: &mut Report) -> Option<Violatio
             let k = inc.get();
             let pushes = pushes.clone();
             let init = init.clone();
+            let stash = stash.clone();
             async move {
                 use turmoil::io_uring::{AsyncFd, IoUring as SimRing};
+                let mut left = false;
                 let r: Result<(), String> = async {
                     let mut ring = SimRing::new(8).map_err(|e| e.to_string())?;
                     if k > 1 {
                         // restarted: nothing submitted before the crash may complete or take effect
                         tokio::time::sleep(Duration::from_nanos(lat_max) + Duration::from_millis(5)).await;
-                        let stale = {
+                        let mut stale = {
                             let mut cq = ring.completion();
                             cq.sync();
                             cq.len()
                         };
+                        let old = stash.borrow_mut().take();
+                        if let Some((mut old_ring, bufs)) = old {
+                            // the handle from before the crash: its ring is gone, draining it yields nothing
+                            let _ = old_ring.submit();
+                            let mut cq = old_ring.completion();
+                            cq.sync();
+                            stale += (&mut cq).count();
+                            drop(cq);
+                            drop(old_ring);
+                            drop(bufs);
+                        }
                         events.borrow_mut().push(SimEv::Restarted { stale_cqes: stale, content: sfs::read("/f0").ok() });
                         return Ok(());
                     }
@@ -858,6 +890,34 @@ fn run_in_sim(sc: &Scenario, log: &mut Log, rep: &mut Report) -> Option<Violatio
                     file.sync_all().map_err(|e| e.to_string())?;
                     sfs::sync_dir("/").map_err(|e| e.to_string())?;
                     let fd = types::Fd(file.as_raw_fd());
+                    if leave_early {
+                        let chunk = &pushes[..pushes.len().min(8)];
+                        let mut bufs: Vec<Vec<u8>> = chunk
+                            .iter()
+                            .map(|(_, kind)| match kind {
+                                SqeKind::Read { len, .. } => vec![SENTINEL; *len as usize],
+                                SqeKind::Write { len, tag, .. } => pattern(*tag, *len),
+                                _ => Vec::new(),
+                            })
+                            .collect();
+                        for (i, (ud, kind)) in chunk.iter().enumerate() {
+                            let e = match kind {
+                                SqeKind::Read { off, len, .. } => opcode::Read::new(fd, bufs[i].as_mut_ptr(), *len).offset(*off).build(),
+                                SqeKind::Write { off, len, .. } => opcode::Write::new(fd, bufs[i].as_ptr(), *len).offset(*off).build(),
+                                _ => opcode::Fsync::new(fd).build(),
+                            }
+                            .user_data(*ud);
+                            unsafe { ring.submission().push(&e).map_err(|e| e.to_string())? };
+                        }
+                        ring.submit().map_err(|e| e.to_string())?;
+                        events.borrow_mut().push(SimEv::Submitted { uds: chunk.iter().map(|c| c.0).collect(), at_us: turmoil::elapsed().as_micros() as u64 });
+                        *stash.borrow_mut() = Some((ring, bufs));
+                        // the descriptor stays registered: nothing below can be blamed on a closed file
+                        std::mem::forget(file);
+                        events.borrow_mut().push(SimEv::LeftEarly);
+                        left = true;
+                        return Ok(());
+                    }
                     let afd = AsyncFd::new(RingFd(std::os::fd::AsRawFd::as_raw_fd(&ring))).map_err(|e| e.to_string())?;
                     for chunk in pushes.chunks(batch) {
                         let mut bufs: Vec<Vec<u8>> = Vec::new();
@@ -905,6 +965,9 @@ fn run_in_sim(sc: &Scenario, log: &mut Log, rep: &mut Report) -> Option<Violatio
                 if let Err(e) = r {
                     events.borrow_mut().push(SimEv::Error(e));
                 }
+                if left {
+                    return Ok(());
+                }
                 std::future::pending::<()>().await;
                 Ok(())
             }
@@ -929,6 +992,7 @@ fn run_in_sim(sc: &Scenario, log: &mut Log, rep: &mut Report) -> Option<Violatio
         }
     }
     drop(sim);
+    drop(stash);
     // ---- judge
     let mut model = Model::new();
     let flags = OpenFlags { read: true, write: true, create: true, ..Default::default() };
@@ -1001,10 +1065,15 @@ fn run_in_sim(sc: &Scenario, log: &mut Log, rep: &mut Report) -> Option<Violatio
                 log.tag("crash");
             }
             SimEv::Error(e) => return Some(Violation::new("SimError", format!("in-Sim host program failed: {e}"))),
+            SimEv::LeftEarly => {
+                log.ev("sim host software returned with its submissions in flight");
+                log.tag("left");
+                rep.probes.inc("in_sim_software_finished_with_ops_in_flight");
+            }
             SimEv::Restarted { stale_cqes, content } => {
                 log.ev(format!("sim restarted: stale={stale_cqes} content={:?}", content.as_ref().map(|c| c.len())));
                 if *stale_cqes != 0 {
-                    return Some(Violation::new("CompletionAfterCrash", format!("in-Sim: the restarted host sees {stale_cqes} completions on a fresh ring")));
+                    return Some(Violation::new("CompletionAfterCrash", format!("in-Sim: the restarted host sees {stale_cqes} completions (fresh ring + the ring handle from before the crash)")));
                 }
                 let exp = match model.read_whole("/f0") {
                     Obs::Bytes(b) => Some(b),
